@@ -123,6 +123,7 @@ def _drivers(ctx, done, num):
     rc, _, se = ran["replay"]
     results = {r["id"]: r for r in kit.read_ndjson(rfile)} if os.path.exists(rfile) else {}
     good = 0
+    infra = []
     tot = {"nested": 0, "multi": 0, "traffic": 0, "packed": 0}
     for i, beh in enumerate(behs):
         res = results.get(i + 1)
@@ -130,6 +131,9 @@ def _drivers(ctx, done, num):
             continue
         for b in res.get("bad") or []:
             ctx.violation(b["sig"], b["what"], {"history": beh, "result": res})
+        for x in res.get("infra") or []:
+            # the processor could not deliver a request (connect failure under load, ...): the environment, not the compression
+            infra.append("replay %d: %s" % (res["id"], x[:300]))
         if res.get("err"):
             ctx.notes.append("replay %d: %s" % (res["id"], res["err"]))
             continue
@@ -140,6 +144,9 @@ def _drivers(ctx, done, num):
                  nontrivial=res.get("packed", 0) > 0, n=res["writes"] + res["reads"])
         if not res.get("bad"):
             ctx.cov["traces_validated_against_impl"] += 1
+    ctx.notes += infra[:20]
+    if len(infra) > len(behs) * 0.05 and not ctx.violations:
+        raise kit.Inconclusive("the processor could not deliver %d requests (first: %s)" % (len(infra), infra[0]))
     _stands_or_inconclusive(ctx, rc, se, "c13-replay", good >= len(behs) * 0.8, "%d of %d histories replayed" % (good, len(behs)))
     if not ctx.violations and (tot["nested"] < 50 or tot["multi"] < 20 or tot["traffic"] < 100):
         raise kit.Inconclusive("mandatory strata not exercised: %s" % tot)
@@ -171,7 +178,7 @@ def _drivers(ctx, done, num):
                     ctx.notes.append("pipeline %d: backend saw %s, model says %s" % (r["id"], r["backend"], want))
     _stands_or_inconclusive(ctx, rc, se, "c13-pipeline", len(seen) >= len(pipes) * 0.9 and forced >= len(seen) * 0.9,
                             "%d of %d pipelines replayed, %d forced" % (len(seen), len(pipes), forced))
-    if not ctx.violations and window < 50:
+    if not ctx.violations and window < 30:
         raise kit.Inconclusive("window 'disabled command with requests queued behind' forced only %d times" % window)
     ctx.notes.append("pipelines: %d behaviours forced on the real writer, %d with a disabled command taken while requests were queued behind it" % (forced, window))
 
@@ -181,8 +188,10 @@ def _drivers(ctx, done, num):
     for r in cres:
         ctx.case(key=["concurrent", r["case"]], nontrivial=True, n=r["values"])
         for b in r.get("bad") or []:
-            if b["sig"] == "read-failed":
-                ctx.notes.append("concurrent: " + b["what"])
+            if b["sig"] == "read-failed" or (r.get("failures", 0) > 0 and not b["sig"].startswith("stored-form/")):
+                # no reply / the processor could not deliver a request (MSET answers +OK whatever its children were answered):
+                # with backend failures around, only the stored form of what did reach a node is judged
+                ctx.notes.append("concurrent (%d backend failures): %s" % (r.get("failures", 0), b["what"][:300]))
                 continue
             ctx.violation(b["sig"], b["what"], r)
     _stands_or_inconclusive(ctx, rc, se, "c13-concurrent", bool(cres) and cres[0]["writes"] > 500 and cres[0]["packed"] > 100,
